@@ -67,6 +67,34 @@ Section Classes.
   Definition k05_3 cfg ss := k_sess (last_flags cfg ss).
   Definition k05_4 cfg ss := k_rot (last_flags cfg ss).
 
+  (** * The records a history appends to the log (the premise of the C05 theorems asks the
+      codec to carry exactly these) *)
+  Definition step_logs (st : dbstate) (o : op) : list record :=
+    match o with
+    | OCheckpoint => [Checkpoint (fst (last_or_begin (db_tm st)))]
+    | ORotate | OSync => []
+    | _ => match op_effect (db_store st) (db_tm st) o with (_, _, rs, _) => rs end
+    end.
+  Fixpoint ops_logs (cfg : wcfg) (st : dbstate) (os : list op) : list record :=
+    match os with
+    | [] => []
+    | o :: r => step_logs st o ++ ops_logs cfg (fst (db_step crc enc cfg st o)) r
+    end.
+  Definition close_logs (st : dbstate) : list record :=
+    let tx := fst (last_or_begin (db_tm st)) in [TxCommit tx; Checkpoint tx].
+  Fixpoint hist_logs (cfg : wcfg) (st : dbstate) (ss : list session) : list record :=
+    match ss with
+    | [] => []
+    | (os, e) :: r =>
+        let st1 := fst (run_ops crc enc cfg st os) in
+        ops_logs cfg st os
+        ++ (match e with EClose => close_logs st1 | ECrash _ => [] end)
+        ++ match db_open crc dec (end_disk crc enc cfg st1 e) with
+           | ROk st2 => hist_logs cfg st2 r
+           | RErr => []
+           end
+    end.
+
   Definition no_crash (ss : list session) : bool :=
     forallb (fun se => match snd se with EClose => true | ECrash _ => false end) ss.
 
